@@ -432,6 +432,19 @@ def vt_rule(chk, db, sigs, rule="VT"):
                     return
                 for a in e0["a"]:
                     visit(a, st)
+                # a private helper of the same object (destroy_target()): its single path is interpreted in place
+                own_call = (fn.get("k") == "mem" and astx.is_this(fn.get("b"))) or (fn.get("k") == "ref" and fn.get("d") in ("unresolved", "CXXMethod"))
+                if own_call and nm and nm not in ("<ctor>", "<dtor>", "operator=", "swap") and getattr(st, "depth", 0) < 2:
+                    helpers = [g for g in db.methods(rec, nm) if g.get("body") is not None and len(g["params"]) == len(e0["a"]) and not g["params"]]
+                    if len(helpers) == 1:
+                        from . import sets as SP2
+                        hp = SP2.paths(helpers[0]["body"])
+                        if len(hp) == 1:
+                            st.depth = getattr(st, "depth", 0) + 1
+                            for ev in hp[0]:
+                                for ee in SP2.event_exprs(ev):
+                                    visit(ee, st)
+                            st.depth -= 1
                 return
             if k == "bin" and e0["op"] == "=":
                 l = astx.strip_casts(e0["l"])
